@@ -335,6 +335,13 @@ class AsyncIOClient(ABC):
             if receive_callback:
                 try:
                     await receive_callback(data)
+                except asyncio.CancelledError:
+                    # Either this task is being cancelled (close(), loop shutdown): pass it on.  Or the callback
+                    # awaited something that had been cancelled: that is a failure of the callback like any other
+                    cancelling = getattr(asyncio.current_task(), "cancelling", None)
+                    if self._state == State.CLOSED or cancelling is None or cancelling() > 0:
+                        raise
+                    self.logger.error("Receive callback was cancelled", exc_info=True)
                 except Exception as e:
                     self.logger.error(f"Error in receive callback: {e}", exc_info=True)
             self.queue.task_done()
